@@ -122,6 +122,7 @@ func (st *provState) walk(v ssa.Value, depth int) {
 				st.leaf("global", a.Name(), v, nil)
 				return
 			case *ssa.IndexAddr:
+				st.leaf("elem", a.Name(), v, nil)
 				st.walk(a.X, depth)
 				st.walk(a.Index, depth)
 				st.walkStores(a, depth)
